@@ -19,6 +19,7 @@ import (
 	"github.com/ovn-org/libovsdb/database/inmemory"
 	"github.com/ovn-org/libovsdb/model"
 	"github.com/ovn-org/libovsdb/ovsdb"
+	"github.com/ovn-org/libovsdb/ovsdb/serverdb"
 	"github.com/ovn-org/libovsdb/server"
 
 	"verif/mc/refmodel"
@@ -43,6 +44,52 @@ func New(dbs *schemas.DB) *Sys {
 	}
 	s.Srv = srv
 	return s
+}
+
+// NewWithServerDB is New plus the _Server database (leader-only clients read and monitor its Database table).
+func NewWithServerDB(dbs *schemas.DB) *Sys {
+	s := &Sys{DBS: dbs, Ref: refmodel.FromOvsdb(dbs.Schema), DBM: dbs.DBModel(), Name: dbs.Name}
+	sdbm, err := serverdb.FullDatabaseModel()
+	if err != nil {
+		panic(err)
+	}
+	s.DB = inmemory.NewDatabase(map[string]model.ClientDBModel{dbs.Name: dbs.ClientDBModel(), "_Server": sdbm})
+	servMod, errs := model.NewDatabaseModel(serverdb.Schema(), sdbm)
+	if len(errs) > 0 {
+		panic(fmt.Sprint(errs))
+	}
+	srv, err := server.NewOvsdbServer(s.DB, s.DBM, servMod)
+	if err != nil {
+		panic(err)
+	}
+	s.Srv = srv
+	return s
+}
+
+const leaderRowUUID = "5e5e5e5e-0000-0000-0000-000000000001"
+
+// SetLeader writes the row of the _Server.Database table that describes this server's copy of the database:
+// clustered, with server id sid, leader or not.
+func (s *Sys) SetLeader(sid string, leader bool) {
+	db, _ := json.Marshal("_Server")
+	sel, _ := json.Marshal(ovsdb.Operation{Op: "select", Table: "Database", Where: []ovsdb.Condition{{Column: "_uuid", Function: ovsdb.ConditionEqual, Value: ovsdb.UUID{GoUUID: leaderRowUUID}}}})
+	res, err := s.TransactRaw([]json.RawMessage{db, sel})
+	if err != nil {
+		panic(err)
+	}
+	var op ovsdb.Operation
+	if len(res) == 1 && len(res[0].Rows) == 1 {
+		op = ovsdb.Operation{Op: "update", Table: "Database", Where: []ovsdb.Condition{{Column: "_uuid", Function: ovsdb.ConditionEqual, Value: ovsdb.UUID{GoUUID: leaderRowUUID}}}, Row: ovsdb.Row{"leader": leader}}
+	} else {
+		u := leaderRowUUID
+		op = ovsdb.Operation{Op: "insert", Table: "Database", UUID: u, Row: ovsdb.Row{"name": s.Name, "connected": true, "leader": leader, "model": "clustered",
+			"sid": ovsdb.OvsSet{GoSet: []interface{}{ovsdb.UUID{GoUUID: sid}}}}}
+	}
+	b, _ := json.Marshal(op)
+	res, err = s.TransactRaw([]json.RawMessage{db, b})
+	if err != nil || len(res) == 0 || res[0].Error != "" {
+		panic(fmt.Sprint("SetLeader: ", res, err))
+	}
 }
 
 // ---- value conversion ----
